@@ -57,9 +57,12 @@ func ZZ_C11() {
 	vals := make([]any, R)
 	errs := make([]error, R)
 	lateLost := false
+	earlyLost := false
+	entered := make([]bool, R)
 	for i := 0; i < R; i++ {
 		i := i
 		zzrt.Go(func() {
+			entered[i] = true
 			vals[i], errs[i] = resps[i].Result()
 			done[i] = true
 		})
@@ -77,7 +80,20 @@ func ZZ_C11() {
 				if collide {
 					late = false
 				}
+				early := !entered[i]
 				e.Send(to, zzRep{i, n})
+				if early && !entered[i] && !collide {
+					// the reply was sent, start to end, before the requester even entered Result(): no timeout can
+					// have passed, so it must be waiting for the requester, not be reported undeliverable
+					zzrt.Reach("reply-before-Result-entered")
+					for _, ev := range sink.evs {
+						if d, ok := ev.(DeadLetterEvent); ok {
+							if m, ok := d.Message.(zzRep); ok && m.I == i && m.N == n {
+								earlyLost = true
+							}
+						}
+					}
+				}
 				if late {
 					zzrt.Reach("late-reply")
 					found := false
@@ -120,5 +136,27 @@ func ZZ_C11() {
 		}
 		zzrt.Assert(e.Registry.get(resps[i].pid) == nil, "C11:response-pid-still-registered-after-Result")
 	}
+	// a follow-up request issued after all of that (sequentially): it must get its own reply, whatever surplus
+	// or late replies the earlier requests left behind
+	fr := e.Request(rp.pid, zzReq{R}, time.Second)
+	var fto *PID
+	for _, g := range rp.reqs {
+		if q, ok := g.Msg.(zzReq); ok && q.I == R {
+			fto = g.Sender
+		}
+	}
+	zzrt.Assert(fto != nil, "C11:request-not-delivered")
+	e.Send(fto, zzRep{R, 0}) // replied at once, before Result is entered (keeps this phase nearly sequential)
+	fv, ferr := fr.Result()
+	if ferr == nil {
+		m, ok := fv.(zzRep)
+		if !ok || m.I != R {
+			zzrt.Fail("C11:result-is-the-reply-to-another-request")
+		}
+		zzrt.Reach("follow-up-replied")
+	}
+	zzrt.Quiesce()
+	zzrt.Assert(e.Registry.get(fr.pid) == nil, "C11:response-pid-still-registered-after-Result")
 	zzrt.Assert(!lateLost, "C11:late-reply-not-dead-lettered")
+	zzrt.Assert(!earlyLost, "C11:reply-sent-before-Result-was-entered-is-dead-lettered")
 }
